@@ -36,6 +36,7 @@ struct Action {
     // net_kill: error index; spurious_ack: packet to inject
     int ec = 0; ref::Packet pkt; std::string bytes;
     bool expect_immediate = false;   // the reference model says this request fails validation
+    int expect_ec = 0;               // ... with this boost::mqtt5::client::error value (0 = not specified)
     std::function<void()> fn;        // custom
     std::string str() const;
 };
@@ -49,6 +50,7 @@ struct Scenario {
     bool final_cancel = true;  // cancel + destroy + drain check at the end
     bool auto_receive = true;  // keep an async_receive armed
     int broker_auth_rounds = 0;
+    std::vector<std::pair<std::string, std::string>> host_list;   // configured (host, port) list, for the rotation oracle
     std::string describe() const;
 };
 
